@@ -14,23 +14,27 @@ def prop(pid, title, level, units, clauses, explanation, statement_clauses=None,
 
 
 prop("C16", "rustfmt never terminates abnormally", "proof",
-     ["U01", "U02"],
+     ["U01", "U02", "U03", "U06", {"unit": "U04", "only": r"does not panic"}, {"unit": "U07", "only": r"does not panic"}, {"unit": "U09", "only": r"does not panic"}],
      [{"clause": "no arithmetic panic (overflow) in Range::{new,is_empty,contains,intersects,adjacent_to,merge} for any usize", "status": "proved", "by": "U01 (Verus)"},
-      {"clause": "no panic in normalize_ranges / FileLines queries / FromStr on the enumerated domain (overflow checks on, panics caught per case)", "status": "bounded", "by": "U02 (native)"},
+      {"clause": "no arithmetic panic in FormatLines::{new_line,char,push_err,should_report_error} and the fold (line_len -= 1 never underflows: invariant last_was_space => line_len >= 1) for texts of any length, tab_spaces >= 1", "status": "proved", "by": "U03 (Verus)"},
+      {"clause": "no overflow / division by zero in Indent and Shape arithmetic under wf (fields <= 2^32, tab_spaces >= 1); every *_opt turns 'does not fit' into None (is_none <=> delta > width)", "status": "proved", "by": "U06 (Verus; Kani for mut-self fns and the Option::map payloads)"},
+      {"clause": "no panic in normalize_ranges / FileLines queries / FromStr, format_lines, Indent::to_string (80-column buffer seam), push_vertical_spaces on the enumerated domains (overflow checks on, panics caught per case)", "status": "bounded", "by": "U02, U04, U07, U09 (native)"},
       {"clause": "catch_unwind containment around the rustc parser and macro formatting; stack depth; ~900 unchecked arithmetic sites inside rewriters", "status": "not_decided", "by": "-"}],
      "Absence of arithmetic panics is discharged by Verus as machine-integer overflow obligations on the verbatim text of the listed functions (all inputs). "
      "Bounded units run the natively compiled real text with overflow checks and catch every panic as a failed obligation. The bulk of C16 (parser containment, stack depth, rewriters) is not decided by this technique.",
-     statement_clauses={"U01": "it does not panic (C16) — arithmetic overflow is a panic in the test-profile binary", "U02": "it does not panic (C16)"},
+     statement_clauses={"U01": "it does not panic (C16) — arithmetic overflow is a panic in the test-profile binary", "U02": "it does not panic (C16)", "U03": "it does not panic", "U06": "it does not panic", "U04": "it does not panic", "U07": "it does not panic", "U09": "it does not panic"},
      assumptions=["64-bit target (global size_of usize == 8)"])
 
 prop("C17", "file_lines confines changes to the selected code", "proof",
-     ["U01", "U02"],
+     ["U01", "U02", "U03", {"unit": "U04", "only": r"^format_lines: reported"}],
      [{"clause": "overlapping or adjacent ranges behave as their union (Range::merge / adjacent_to / intersects against the set-of-lines view)", "status": "proved", "by": "U01 (Verus)"},
       {"clause": "normalisation keeps exactly the union; contains_line / intersects / contains_range answer for the union; empty selection selects nothing; order of ranges irrelevant", "status": "bounded", "by": "U02 (native)"},
+      {"clause": "diagnostics are issued only for selected lines: the per-line report is empty when the line is not selected (format_line gating, for texts of any length)", "status": "proved", "by": "U03 (Verus: line_errs(sel=false) is empty) + U04 (bounded, real contains_line)"},
       {"clause": "every visitor path consults the guard; lookup_line_range (SourceMap)", "status": "not_decided", "by": "-"}],
      "Range algebra is proved in Verus against a set-of-lines view for every usize; the FileLines container (HashMap, iterators, serde) is outside Verus and Kani and is checked bounded-exhaustively on the real file text.",
      statement_clauses={"U01": "An empty selection formats nothing, and overlapping or adjacent ranges behave as their union.",
-                        "U02": "An empty selection formats nothing, and overlapping or adjacent ranges behave as their union; diagnostics are issued only for selected lines."},
+                        "U02": "An empty selection formats nothing, and overlapping or adjacent ranges behave as their union; diagnostics are issued only for selected lines.",
+                        "U03": "diagnostics are issued only for selected lines", "U04": "diagnostics are issued only for selected lines"},
      assumptions=["64-bit target (global size_of usize == 8)", "trusted 1-line usize shims for std::cmp::{min,max} in the Verus unit"])
 
 prop("C07", "Line-width and trailing-whitespace diagnostics are exact", "proof",
@@ -61,7 +65,7 @@ prop("C20", "The --backup write protocol never loses the original", "fault_enume
                   "file contents drawn from 4 short texts: the function never inspects the bytes beyond `original_text != formatted_text`"])
 
 prop("C15", "Output is a function of source and configuration only", "proof",
-     ["U05"],
+     ["U05", {"unit": "U23", "only": r"^format_input_inner"}],
      [{"clause": "the session summary (ReportedErrors::add) is a field-wise OR: commutative, associative, idempotent, so the final flags do not depend on the order of the files", "status": "proved", "by": "U05 (Kani, complete)"},
       {"clause": "the exit status of a multi-file invocation is the maximum of the single-file statuses (file and stdin entry points)", "status": "proved", "by": "U05 (Kani, complete)"},
       {"clause": "override_config runs the closure under the local configuration and restores the session configuration afterwards (for any closure that does not itself assign `config`)", "status": "proved", "by": "U05 (Kani, complete)"},
@@ -72,15 +76,17 @@ prop("C15", "Output is a function of source and configuration only", "proof",
      assumptions=["Session is a shim holding the real fields read by the extracted functions (config, errors, out); Config is two opaque words", "Session::format is a harness-chosen outcome"])
 
 prop("C05", "A failing run never damages source files", "other",
-     ["U05", {"unit": "U16", "exclude": r"^FilesWithBackupEmitter"}],
+     ["U05", {"unit": "U16", "exclude": r"^FilesWithBackupEmitter"}, "U23"],
      [{"clause": "the exit status is 1 whenever a parsing or operational error was recorded; an Err from formatting a root is folded into the session as an operational error and later roots are still processed", "status": "proved", "by": "U05 (Kani, complete)"},
       {"clause": "a file is only ever replaced by its complete formatted text, and only if it differs (FilesEmitter: exactly one fs::write of the whole text, iff original != formatted)", "status": "bounded", "by": "U16 (native, complete w.r.t. the FS model)"},
       {"clause": "only --emit files reaches the file system (create_emitter table + token scan of the other emitters)", "status": "bounded", "by": "U16 + frame scan"},
-      {"clause": "every fault (syntax error in any reached module, unresolvable module, bad config) is detected before the first write; rustc parser and ModResolver report every fault", "status": "not_decided", "by": "-"}],
-     "Decided: the exit-code and error-folding clauses (proved on the extracted statements) and the 'only complete text, only if different' clause of the files emitter. "
-     "Not decided: that parse/resolve errors are raised before any file of the crate is emitted (format_project over rustc types).",
+      {"clause": "parse of the root and resolution of every reached module complete before the first file is formatted/emitted; a parse error, resolution error or failing parse session formats nothing; a parse error sets has_parsing_errors and is merged into the session; a required_version mismatch is an error before anything runs", "status": "bounded", "by": "U23 (real format_project / format_input_inner on event-recording shims, complete over the decision domain, <= 2 files)"},
+      {"clause": "the rustc parser and ModResolver report every fault of the input (syntax error in any reached module, both foo.rs and foo/mod.rs, ...); malformed configuration", "status": "not_decided", "by": "-"}],
+     "Decided: the exit-code and error-folding clauses (proved on the extracted statements), the 'only complete text, only if different' clause of the files emitter, and the ordering 'parse and resolve everything, then format' of format_project. "
+     "Not decided: that rustc's parser / ModResolver detect every fault.",
      statement_clauses={"U05": "a diagnostic is printed and the exit status is 1. Other roots named on the same command line are still formatted",
-                        "U16": "a file is only ever replaced by its complete formatted text"})
+                        "U16": "a file is only ever replaced by its complete formatted text",
+                        "U23": "If the input cannot be processed (...), rustfmt writes nothing for that crate root"})
 
 prop("C06", "Check mode is read-only and exact; all emit modes agree on the text", "other",
      ["U05", {"unit": "U16", "exclude": r"^FilesWithBackupEmitter"}],
@@ -169,6 +175,14 @@ prop("C09", "Released style editions are frozen", "other",
      statement_clauses={"U20": "For a given source and options, the style editions 2015, 2018 and 2021 produce identical text"},
      assumptions=["the style edition influences formatting only through the scanned token forms (values copied into UseSegment.style_edition are compared with the same operators, which the scan also sees)"])
 
+prop("C13", "Exactly the reachable, non-excluded files are formatted, each once", "other",
+     [{"unit": "U23", "only": r"^format_project"}],
+     [{"clause": "of the (path, module) list produced by module resolution, exactly the non-excluded entries are formatted, each once, in order; stdin never filters; children are resolved only for file input without skip_children", "status": "bounded", "by": "U23 (real format_project on event-recording shims, <= 2 files)"},
+      {"clause": "exclusion decision: skip attribute, skip_children, ignore, @generated (should_skip_module, is_generated_file)", "status": "bounded", "by": "U17 (when built)"},
+      {"clause": "reachability: which files `mod name;` declarations resolve to (name.rs / name/mod.rs, #[path], cfg_if!, nested inline modules), ambiguity and missing-module errors, each file reached twice is listed once", "status": "not_decided", "by": "- (ModResolver over rustc_ast / rustc_expand; the larger half of the property)"}],
+     "Only the consumer side of module resolution is within reach: given the resolver's list, format_project formats precisely the non-excluded entries once each. The reachability rules themselves live in ModResolver over rustc types and are not decided by this technique.",
+     statement_clauses={"U23": "Each such file is formatted once ..., except modules or files that are skipped, matched by `ignore`, marked @generated ..., or any child when skip_children is set or the input is standard input"})
+
 # ------------------------------------------------------------------ MANIFEST texts
 T_V = "contract-based deductive verification: Verus on mechanically extracted real functions"
 T_K = "contract-based verification: Kani harnesses over full-domain symbolic inputs on extracted loop-free real functions (complete)"
@@ -186,6 +200,8 @@ MANIFEST_TEXT = {
             "note": "Config shim; TOML loaders are recording stand-ins; per-option macro code and directory walk not decided", "technique": T_K + " + " + T_B},
     "C09": {"text": "Clause 1 (2015/2018/2021 identical) by non-interference: a whole-src token scan shows every style-edition comparison is constant on the three old editions and the default table groups them; the order relied on is enumerated completely on the real PartialOrd impl. Clause 2 (byte-identity with the pinned release) is not decided.",
             "note": "frame scan is lexical (complete for what it states); assumes the style edition is only observed through the scanned forms", "technique": "mechanical frame scan (non-interference) + complete enumeration of the real StyleEdition order"},
+    "C13": {"text": "Only the consumer side: given the list produced by module resolution, the real format_project formats exactly the non-excluded entries, each once, in order (complete enumeration over event-recording shims, <= 2 files). The reachability rules (ModResolver) — the larger half of the property — are NOT decided.",
+            "note": "ModResolver, ParseSess, Parser are shims; exclusion predicate is a harness-chosen boolean here (its real table: U17)", "technique": T_B},
     "C12": {"text": "The property's own exhaustive quantifier (all pairs of line sequences <= 5 over {\"\",a,b}, final newline y/n, context 0..3) is enumerated completely on the real diff/report code with independent oracles (apply-chunks, re-parse, line-number consistency, XML/JSON well-formedness). Bounded stand-in: no deductive back end reaches this String/iterator code.",
             "note": "diff crate and serde_json trusted; Config shim (color, verbose); two recorded known findings for the checkstyle report", "technique": T_B},
     "C15": {"text": "Only the inter-file session state is within reach: ReportedErrors::add is a field-wise OR, exit status of a multi-file run is the max of the single statuses, override_config restores the config — all proved by Kani over fully symbolic inputs (loop-free, complete). Determinism of the formatter proper is not decided.",
